@@ -408,8 +408,10 @@ Qed.
 
 Lemma transport_nodup X : chk_C01_nodup e (X ++ T0) = true -> chk_C01_nodup e X = true.
 Proof.
-  unfold chk_C01_nodup. rewrite cov_app, pairwise_disj_app. intros H.
-  apply andb_true_iff in H. destruct H as [H _]. apply andb_true_iff in H. apply H.
+  unfold chk_C01_nodup. rewrite cov_app, pairwise_disj_app, iv_within_app. intros H.
+  apply andb_true_iff in H. destruct H as [H Hw]. apply andb_true_iff in Hw. destruct Hw as [Hw _].
+  apply andb_true_iff in H. destruct H as [H _]. apply andb_true_iff in H. destruct H as [H _].
+  rewrite H, Hw. reflexivity.
 Qed.
 
 (** what the prefix thread was handed lies below everything the clone delivers *)
@@ -417,6 +419,7 @@ Lemma transport_floor X m : 0 < m -> In (0, m) (cov e T0) -> chk_C01_nodup e (X 
   forall lo cnt, In (lo, cnt) (cov e X) -> 0 < cnt -> m <= lo.
 Proof.
   unfold chk_C01_nodup. rewrite cov_app, pairwise_disj_app. intros Hm Hin H lo cnt Hx Hc.
+  apply andb_true_iff in H. destruct H as [H _].
   apply andb_true_iff in H. destruct H as [_ H]. rewrite forallb_forall in H.
   specialize (H _ Hx). rewrite disj_from_forall in H. specialize (H _ Hin).
   unfold iv_disj, iv_hi in H. cbn [fst snd] in H.
